@@ -7,7 +7,7 @@ One size-like dimension at a time on an otherwise small input, stepped through
 (cut where it buys nothing: depth / ghost / operator runs / per-kind counts stop at 4097; top-level field counts, duplicate keys,
 array lengths -- hence token counts up to 131 075 -- and every scalar / gap / comment length go to 65536), plus the pairs the code
 couples (scalar length x left padding x distance to the end of input: the SSE2 loop of split_at_scalar stops `min(16, len)` bytes
-before the END OF THE INPUT, not of the scalar; token count x Vec capacity at the moment of a MixedContainer insert; tape size x reuse).
+before the END OF THE INPUT, not of the scalar; token count x Vec capacity at the moment of a MixedContainer insert; tape index of a container x nesting; tape size x reuse).
 
 Every case carries its expected tape BY CONSTRUCTION: the text and the tape are written side by side by `Doc` below (a bracket
 matcher with an explicit stack: no recursion, no look-ahead rule, nothing shared with the parser, with props/textdoc.flatten or with the
@@ -336,6 +336,18 @@ def build(rng):
             padn = (m + 3 + delta) * 5 - len(data)      # tokens on the tape when the marker is inserted: a, A, m items, k
             if padn >= 0:
                 out.append(("pair_tokens_capacity_insert", m, data + b" " * padn, tape, False))
+
+    # ---- C''. tape index of a container x nesting: 2n scalar tokens first, then containers of every kind whose links (`end:` = parent
+    # while open, End(i), the grand-parent look-up at each close) are tape indices >= 2n
+    for n in LADDER:
+        d = Doc(b" ")
+        for i in range(n):
+            d.kv(b"k", b"%d" % (i % 10))
+        d.u(b"a").op("=").open("O").u(b"b").op("=").open("O").kv(b"c", b"d", "<").close().u(b"e").op("=").open("A").u(b"1").open("A", glue=False).u(b"2").close().close()
+        d.u(b"f").op("=").open("A").u(b"1").tok("M").kv(b"k", b"v", "==").close(mixed=1).u(b"g").open("A", glue=False).close(glue=True)
+        d.u(b"h").op("=").u(b"rgb", glue=True, tag="H").open("A", glue=False).u(b"3").close().close().kv(b"x", b"y")
+        d.param(b"p").open("O", brace=False).kv(b"q", b"r").close(brace=b"]").kv(b"z", b"w")
+        add("pair_tokens_before_nesting", n, d)
 
     # ---- D. depth
     for n in DEPTHS:
